@@ -7,17 +7,28 @@
    `-simulate` chooses uniformly among kinds; "aimed" kinds draw arguments that make the
    call interesting in the current state (a colliding key, an id that is stored, a
    truncation inside the stored rows, a trim inside the log, the reopen of a channel
-   whose entry was just reclaimed ...). *)
-EXTENDS MessageLog, Json
+   whose entry was just reclaimed, the exact retry of an older proposal that still raises
+   the watermark ...).
+
+   Every behaviour has a focus, drawn with its initial state: the configured one
+   ("log": C07, truncation / retention / reopen; "dup": C08, collisions / reclaim / reopen)
+   or "exact" (compat surface: chains of exact proposals, their retries, suffix
+   replacement, interleaved with everything else at a lower rate). *)
+EXTENDS MessageLogX, Json
 CONSTANTS Depth,
-          Focus   \* "log" (C07: truncation, retention, reopen) or "dup" (C08: collisions, reclaim, reopen)
-VARIABLE hist
+          Focus   \* "log" or "dup"
+VARIABLES hist, focus
 
 SimProbeIds   == SetToSortSeq(Ids, <)
 SimProbeFroms == << "u1", "u2" >>
 SimProbeNos   == << "n1", "n2" >>
+SimProbePids  == SetToSortSeq(Pids, <)
 
-SimInit == Init /\ hist = << [ev |-> ev, st |-> Cur] >>
+SimInit ==
+  /\ InitX
+  /\ focus \in {Focus, "exact"}
+  /\ (focus = "exact" => cfg.surface = "compat")
+  /\ hist = << [ev |-> ev, st |-> CurX] >>
 
 Pick(S) == {RandomElement(S)}
 OpenCh  == {c \in Chans : Usable(c)}
@@ -33,16 +44,25 @@ CleanRecs(c) == {r \in [id : Fresh, from : Froms, no : Nos, p : Pays] : HasKey(r
 RandBatch  == [i \in 1..RandomElement(1..MaxBatch) |-> RandRec]
 FreshBatch == [i \in 1..RandomElement(1..MaxBatch) |-> FreshRec]
 Seq1(r)    == << r >>
+\* a second clean record that can share a batch with r1
+Clean2(c, r1) == {r \in CleanRecs(c) : r.id # r1.id /\ (HasKey(r) /\ HasKey(r1) => KeyOf(r) # KeyOf(r1))}
 
-SimStep ==
-  \* ---- leases and database
+Exact == focus = "exact"
+Dup   == focus = "dup"
+\* in the exact focus everything that is not about proposals happens at a lower rate
+Thin(n) == ~Exact \/ RandomElement(1..n) = 1
+
+\* ---- leases and database
+Leases ==
   \/ \E c \in Pick(Chans) : OpenLease(c)
   \/ ShutCh # {} /\ \E c \in Pick(ShutCh) : OpenLease(c)
-  \/ RandomElement(1..(IF Focus = "dup" THEN 2 ELSE 3)) = 1 /\ \E c \in Pick(Chans) : CloseLease(c)
-  \/ RandomElement(1..(IF Focus = "dup" THEN 5 ELSE 8)) = 1 /\ CloseDB
-  \/ OpenCh # {} /\ RandomElement(1..(IF Focus = "dup" THEN 2 ELSE 4)) = 1 /\ \E c \in Pick(OpenCh) : CloseLease(c)
+  \/ RandomElement(1..(IF Dup THEN 2 ELSE 3)) = 1 /\ \E c \in Pick(Chans) : CloseLease(c)
+  \/ RandomElement(1..(IF Dup THEN 5 ELSE 8)) = 1 /\ CloseDB
+  \/ OpenCh # {} /\ RandomElement(1..(IF Dup THEN 2 ELSE 4)) = 1 /\ \E c \in Pick(OpenCh) : CloseLease(c)
   \/ OpenDB
-  \* ---- appends
+
+\* ---- appends
+Appends ==
   \/ OpenCh # {} /\ \E c \in Pick(OpenCh), m \in Pick(Modes) : DoAppend(c, m, 0, RandBatch)
   \/ OpenCh # {} /\ Fresh # {} /\ \E c \in Pick(OpenCh), m \in Pick(Modes) : DoAppend(c, m, 0, FreshBatch)
   \/ OpenCh # {} /\ \E c \in Pick(OpenCh) : CleanRecs(c) # {} /\
@@ -56,14 +76,14 @@ SimStep ==
   \/ OpenCh # {} /\ Fresh # {} /\ \E c \in Pick(OpenCh) : Keyed(c) # {} /\ CleanRecs(c) # {} /\
         \E m \in Pick({"strict", "alloc"}), k \in Pick(Keyed(c)), id \in Pick(Fresh), r \in Pick(CleanRecs(c)) :
            DoAppend(c, m, 0, << r, [id |-> id, from |-> k.from, no |-> k.no, p |-> r.p] >>)
-  \/ Focus = "dup" /\ OpenCh # {} /\ Fresh # {} /\ \E c \in Pick(OpenCh) : Keyed(c) # {} /\
+  \/ Dup /\ OpenCh # {} /\ Fresh # {} /\ \E c \in Pick(OpenCh) : Keyed(c) # {} /\
         \E m \in Pick({"strict", "alloc"}), k \in Pick(Keyed(c)), id \in Pick(Fresh), p \in Pick(Pays) :
            DoAppend(c, m, 0, Seq1([id |-> id, from |-> k.from, no |-> k.no, p |-> p]))
-  \/ Focus = "dup" /\ OpenCh # {} /\ Fresh # {} /\ \E c \in Pick(OpenCh) : Keyed(c) # {} /\
+  \/ Dup /\ OpenCh # {} /\ Fresh # {} /\ \E c \in Pick(OpenCh) : Keyed(c) # {} /\
         \E k \in Pick(Keyed(c)), id \in Pick(Fresh), p \in Pick(Pays) :
            DoApply(c, "strict", 0, Seq1([id |-> id, from |-> k.from, no |-> k.no, p |-> p]), 0)
   \* a keyed record arriving by a trusted apply / append (the filter must learn it)
-  \/ Focus = "dup" /\ OpenCh # {} /\ \E c \in Pick(OpenCh) :
+  \/ Dup /\ OpenCh # {} /\ \E c \in Pick(OpenCh) :
         LET K == {r \in CleanRecs(c) : HasKey(r)} IN K # {} /\
         \E r \in Pick(K), viaApply \in Pick({TRUE, FALSE}) :
            IF viaApply THEN DoApply(c, "trusted", 0, Seq1(r), 0) ELSE DoAppend(c, "trusted", 0, Seq1(r))
@@ -86,7 +106,9 @@ SimStep ==
   \/ OpenCh # {} /\ \E c \in Pick(OpenCh) : CleanRecs(c) # {} /\
         \E r \in Pick(CleanRecs(c)), b \in Pick({0, 1, 1, 2}) : DoAppend(c, "strict", Leo(c) + b, Seq1(r))
   \/ OpenCh # {} /\ \E c \in Pick(OpenCh) : DoAppend(c, "strict", 0, << >>)
-  \* ---- follower applies
+
+\* ---- follower applies
+Applies ==
   \/ OpenCh # {} /\ \E c \in Pick(OpenCh) : CleanRecs(c) # {} /\
         \E m \in Pick({"strict", "trusted"}), r \in Pick(CleanRecs(c)), hw \in Pick({0, 0, Leo(c), Leo(c) + 1, Leo(c) + 2}) :
            DoApply(c, m, 0, Seq1(r), hw)
@@ -96,19 +118,115 @@ SimStep ==
   \/ OpenCh # {} /\ Fresh # {} /\ \E c \in Pick(OpenCh) : \E m \in Pick({"strict", "trusted"}) :
         DoApply(c, m, 0, FreshBatch, 0)
   \/ OpenCh # {} /\ \E c \in Pick(OpenCh) : \E hw \in Pick({1, Leo(c), Leo(c) + 1}) : DoApply(c, "trusted", 0, << >>, hw)
-  \* ---- truncation
-  \/ OpenCh # {} /\ \E c \in Pick(OpenCh) : \E to \in Pick(0..(Leo(c) + 1)) : Truncate(c, to)
-  \/ OpenCh # {} /\ \E c \in Pick(OpenCh) : RowSeqs(c) # {} /\ \E s \in Pick(RowSeqs(c)) : Truncate(c, s - 1)
-  \/ OpenCh # {} /\ \E c \in Pick(OpenCh) : Leo(c) > 0 /\ Truncate(c, Leo(c) - 1)
-  \* ---- retention
+
+\* ---- truncation (also removes the proposals above the target)
+Truncs ==
+  \/ OpenCh # {} /\ \E c \in Pick(OpenCh) : \E to \in Pick(0..(Leo(c) + 1)) : XTruncate(c, to)
+  \/ OpenCh # {} /\ \E c \in Pick(OpenCh) : RowSeqs(c) # {} /\ \E s \in Pick(RowSeqs(c)) : XTruncate(c, s - 1)
+  \/ OpenCh # {} /\ \E c \in Pick(OpenCh) : Leo(c) > 0 /\ XTruncate(c, Leo(c) - 1)
+
+\* ---- retention
+Retention ==
   \/ OpenCh # {} /\ \E c \in Pick(OpenCh) : \E t \in Pick(0..MinOf(MaxSeq, Leo(c) + 2)) : Adopt(c, t)
   \/ OpenCh # {} /\ \E c \in Pick(OpenCh) : Leo(c) > 0 /\ \E t \in Pick(1..Leo(c)) : Adopt(c, t)
   \/ OpenCh # {} /\ \E c \in Pick(OpenCh) : \E t \in Pick(0..MinOf(MaxSeq, Leo(c) + 2)), lim \in Pick({0, 1, 2}) : Trim(c, t, lim)
   \/ OpenCh # {} /\ \E c \in Pick(OpenCh) : Leo(c) > 0 /\ \E t \in Pick(1..Leo(c)), lim \in Pick({0, 1, 2}) : Trim(c, t, lim)
   \/ OpenCh # {} /\ \E c \in Pick(OpenCh) : ret[c].has /\ \E lim \in Pick({0, 1}) : Trim(c, ret[c].local, lim)
-  \* ---- checkpoints
+
+\* ---- checkpoints
+Ckpts ==
   \/ OpenCh # {} /\ \E c \in Pick(OpenCh), hw \in Pick(HWs) : Ckpt(c, hw)
   \/ OpenCh # {} /\ \E c \in Pick(OpenCh) : \E hw \in Pick({1, Leo(c), Leo(c) + 1} \cup HWs) : CkptMono(c, hw)
+
+\* ---- exact proposals (compat surface)
+Ends(c)     == {0} \cup {prop[c][q].last : q \in DOMAIN prop[c]}
+FreePids(c) == Pids \ DOMAIN prop[c]
+Above(c, k) == {q \in DOMAIN prop[c] : prop[c][q].last > k}
+XMode       == RandomElement({"strict", "alloc"})
+Room(c, n)  == Leo(c) + n <= MaxSeq
+
+OlderRaise ==
+  OpenCh # {} /\ \E c \in Pick(OpenCh) :
+     LET Q == {q \in DOMAIN prop[c] : prop[c][q].last < Leo(c) /\ CkHW(c) < prop[c][q].last}
+     IN Q # {} /\ \E q \in Pick(Q) : \E hw \in Pick((CkHW(c) + 1)..prop[c][q].last) :
+          ExAppend(c, q, prop[c][q].base, prop[c][q].recs, XMode, hw)
+
+ExactOps ==
+  \* a new command at the frontier, one or two records, with or without a committed value
+  \/ OpenCh # {} /\ \E c \in Pick(OpenCh) : CleanRecs(c) # {} /\ FreePids(c) # {} /\ Room(c, 1) /\
+        \E q \in Pick(FreePids(c)), r \in Pick(CleanRecs(c)), hw \in Pick({0, 0, 0, 0, Leo(c) + 1}) :
+           ExAppend(c, q, Leo(c), Seq1(r), XMode, hw)
+  \/ OpenCh # {} /\ \E c \in Pick(OpenCh) : CleanRecs(c) # {} /\ FreePids(c) # {} /\ Room(c, 2) /\
+        \E q \in Pick(FreePids(c)), r1 \in Pick(CleanRecs(c)) : Clean2(c, r1) # {} /\
+          \E r2 \in Pick(Clean2(c, r1)), hw \in Pick({0, 0, 0, Leo(c) + 1, Leo(c) + 2}) :
+             ExAppend(c, q, Leo(c), << r1, r2 >>, XMode, hw)
+  \* in the exact focus the chain is extended more often than anything else
+  \/ Exact /\ OpenCh # {} /\ \E c \in Pick(OpenCh) : CleanRecs(c) # {} /\ FreePids(c) # {} /\ Room(c, 1) /\
+        (Leo(c) \in Ends(c)) /\
+        \E q \in Pick(FreePids(c)), r \in Pick(CleanRecs(c)) : ExAppend(c, q, Leo(c), Seq1(r), XMode, 0)
+  \* exact retry of a stored command, the tail one or an older one, any committed value it may carry
+  \/ OpenCh # {} /\ \E c \in Pick(OpenCh) : DOMAIN prop[c] # {} /\
+        \E q \in Pick(DOMAIN prop[c]) : \E hw \in Pick(0..prop[c][q].last) :
+           ExAppend(c, q, prop[c][q].base, prop[c][q].recs, "strict", hw)
+  \* ... of an OLDER command whose committed value still raises the stored watermark
+  \/ OlderRaise
+  \/ Exact /\ OlderRaise
+  \* ... of the tail command with a raise
+  \/ OpenCh # {} /\ \E c \in Pick(OpenCh) :
+        LET Q == {q \in DOMAIN prop[c] : prop[c][q].last = Leo(c) /\ CkHW(c) < prop[c][q].last}
+        IN Q # {} /\ \E q \in Pick(Q) : \E hw \in Pick((CkHW(c) + 1)..prop[c][q].last) :
+             ExAppend(c, q, prop[c][q].base, prop[c][q].recs, XMode, hw)
+  \* a gap, a taken range, a base that is no proposal end
+  \/ OpenCh # {} /\ \E c \in Pick(OpenCh) : CleanRecs(c) # {} /\ FreePids(c) # {} /\
+        \E q \in Pick(FreePids(c)), r \in Pick(CleanRecs(c)), b \in Pick(Ends(c) \cup {Leo(c) + 1, Leo(c) + 2} \cup 0..Leo(c)) :
+           b + 1 <= MaxSeq /\ ExAppend(c, q, b, Seq1(r), "strict", 0)
+  \* a stored command offered with other content or at another base
+  \/ OpenCh # {} /\ \E c \in Pick(OpenCh) : DOMAIN prop[c] # {} /\ CleanRecs(c) # {} /\
+        \E q \in Pick(DOMAIN prop[c]), r \in Pick(CleanRecs(c)) : \E b \in Pick({prop[c][q].base, Leo(c)}) :
+           b + 1 <= MaxSeq /\ ExAppend(c, q, b, Seq1(r), "strict", 0)
+  \* duplicates offered through the exact path (C08): a stored key under a fresh id, twice in the batch, a stored id
+  \/ OpenCh # {} /\ Fresh # {} /\ \E c \in Pick(OpenCh) : Keyed(c) # {} /\ FreePids(c) # {} /\ Room(c, 1) /\
+        \E q \in Pick(FreePids(c)), k \in Pick(Keyed(c)), id \in Pick(Fresh), p \in Pick(Pays) :
+           ExAppend(c, q, Leo(c), Seq1([id |-> id, from |-> k.from, no |-> k.no, p |-> p]), XMode, 0)
+  \/ OpenCh # {} /\ \E c \in Pick(OpenCh) : CleanRecs(c) # {} /\ Cardinality(Fresh) >= 2 /\ FreePids(c) # {} /\ Room(c, 2) /\
+        \E q \in Pick(FreePids(c)), r \in Pick(CleanRecs(c)) : \E id \in Pick(Fresh \ {r.id}) :
+           ExAppend(c, q, Leo(c), << r, [r EXCEPT !.id = id] >>, XMode, 0)
+  \/ OpenCh # {} /\ DOMAIN idIdx # {} /\ \E c \in Pick(OpenCh) : FreePids(c) # {} /\ Room(c, 1) /\
+        \E q \in Pick(FreePids(c)), id \in Pick(DOMAIN idIdx) :
+           ExAppend(c, q, Leo(c), Seq1([id |-> id, from |-> RandomElement(Froms), no |-> RandomElement(Nos), p |-> RandomElement(Pays)]), "strict", 0)
+  \* suffix replacement: one proposal, two proposals (possibly re-installing a removed row / command), none
+  \/ OpenCh # {} /\ \E c \in Pick(OpenCh) : CleanRecs(c) # {} /\
+        \E keep \in Pick({e \in Ends(c) : e >= CkHW(c)} \cup {Leo(c)}) : keep + 1 <= MaxSeq /\
+          LET P == FreePids(c) \cup Above(c, keep)
+              R == CleanRecs(c) \cup {rows[c][s] : s \in {t \in RowSeqs(c) : t > keep}}
+          IN P # {} /\ \E q \in Pick(P), r \in Pick(R), hw \in Pick(CkHW(c)..MaxOf(CkHW(c), keep + 1)) :
+               hw <= keep + 1 /\ Replace(c, keep, << [pid |-> q, recs |-> Seq1(r)] >>, hw)
+  \/ OpenCh # {} /\ \E c \in Pick(OpenCh) : CleanRecs(c) # {} /\
+        \E keep \in Pick({e \in Ends(c) : e >= CkHW(c)}) : keep + 2 <= MaxSeq /\
+          LET P == FreePids(c) \cup Above(c, keep) IN
+          Cardinality(P) >= 2 /\ \E q1 \in Pick(P), r1 \in Pick(CleanRecs(c)) : Clean2(c, r1) # {} /\
+            \E q2 \in Pick(P \ {q1}), r2 \in Pick(Clean2(c, r1)), hw \in Pick(CkHW(c)..MaxOf(CkHW(c), keep + 2)) :
+               hw <= keep + 2 /\ Replace(c, keep, << [pid |-> q1, recs |-> Seq1(r1)], [pid |-> q2, recs |-> Seq1(r2)] >>, hw)
+  \/ OpenCh # {} /\ \E c \in Pick(OpenCh) : \E keep \in Pick(Ends(c)) : \E hw \in Pick({CkHW(c), keep}) :
+        hw <= keep /\ Replace(c, keep, << >>, hw)
+  \* ... with arguments drawn blindly (mostly refused)
+  \/ OpenCh # {} /\ \E c \in Pick(OpenCh) : CleanRecs(c) # {} /\
+        \E keep \in Pick(0..MinOf(MaxSeq - 1, Leo(c) + 1)), q \in Pick(Pids), r \in Pick(CleanRecs(c)) : \E hw \in Pick(0..(keep + 1)) :
+           Replace(c, keep, << [pid |-> q, recs |-> Seq1(r)] >>, hw)
+  \* truncation to the end of a proposal (keeps the chain extendable)
+  \/ OpenCh # {} /\ \E c \in Pick(OpenCh) : \E to \in Pick(Ends(c)) : XTruncate(c, to)
+  \* a plain append right behind exact proposals (takes its base from the cached log end)
+  \/ Exact /\ OpenCh # {} /\ \E c \in Pick(OpenCh) : DOMAIN prop[c] # {} /\ CleanRecs(c) # {} /\
+        \E m \in Pick(Modes), r \in Pick(CleanRecs(c)) : RandomElement(1..3) = 1 /\ XAppend(c, m, 0, Seq1(r))
+
+SimStep ==
+  \/ Leases /\ KeepX
+  \/ Thin(4) /\ Appends /\ KeepX
+  \/ Thin(4) /\ Applies /\ KeepX
+  \/ Thin(2) /\ Truncs
+  \/ Thin(3) /\ Retention /\ KeepX
+  \/ Thin(6) /\ Ckpts /\ KeepX
+  \/ Compat /\ (Exact \/ RandomElement(1..3) = 1) /\ ExactOps
 
 \* TLC evaluates the invariant on every candidate successor.  After Depth steps the only
 \* successor is a stuttering "end" marker, so each simulated trace prints exactly once.
@@ -116,8 +234,8 @@ SimStep ==
 \* behaviour is printed (TLCEval: evaluate once, eagerly; lazily it is 60x slower).
 SimNext ==
   IF Len(hist) <= Depth
-    THEN SimStep /\ hist' = Append(hist, [ev |-> ev', st |-> Cur'])
-    ELSE UNCHANGED vars /\ hist' = Append(hist, [ev |-> [a |-> "End"], st |-> 0])
+    THEN SimStep /\ hist' = Append(hist, [ev |-> ev', st |-> CurX']) /\ UNCHANGED focus
+    ELSE UNCHANGED xvars /\ UNCHANGED focus /\ hist' = Append(hist, [ev |-> [a |-> "End"], st |-> 0])
 Emit == Len(hist) = Depth + 2 =>
-          PrintT("BEH " \o ToJson([steps |-> [i \in 1..(Depth + 1) |-> TLCEval([ev |-> hist[i].ev, st |-> TLCEval(ProjS(TLCEval(hist[i].st)))])]]))
+          PrintT("BEH " \o ToJson([steps |-> [i \in 1..(Depth + 1) |-> TLCEval([ev |-> hist[i].ev, st |-> TLCEval(ProjSX(TLCEval(hist[i].st)))])]]))
 ===============================================================================
